@@ -421,7 +421,7 @@ func GenTTML(r *prng.R, idx int) Doc {
 		rates += fmt.Sprintf(` ttp:tickRate="%d"`, r.PickInt(1000, 10000000))
 	}
 	fmt.Fprintf(&b, `<tt xml:lang="%s" xmlns="http://www.w3.org/ns/ttml" xmlns:tts="http://www.w3.org/ns/ttml#styling" xmlns:ttm="http://www.w3.org/ns/ttml#metadata" xmlns:ttp="http://www.w3.org/ns/ttml#parameter"%s>%s`,
-		r.Pick("en", "fr", "ja", "xx"), rates, nl)
+		r.Pick("en", "fr", "ja", "xx", "pt-PT", "pt-BR", "de-AT", "de", "fr-FR", "xx-A", "xx-B"), rates, nl)
 	b.WriteString(ind(1) + "<head>" + nl)
 	if r.Bool(0.6) {
 		b.WriteString(ind(2) + "<metadata>" + nl + ind(3) + "<ttm:title>" + asciiSentence(r, 1, 3) + "</ttm:title>" + nl + ind(3) + "<ttm:copyright>(c) " + asciiSentence(r, 1, 2) + "</ttm:copyright>" + nl + ind(2) + "</metadata>" + nl)
